@@ -146,10 +146,14 @@ def run(ctx):
             if not h["deletes"]:
                 alld = [d["id"] for c_ in h["commits"] for d in c_]
                 h["deletes"] = rng.sample(alld, min(len(alld) // 4, 25))
+            h["blocklimit"] = rng.choice([1, 1, 2, 4])   # blocklimit 1: every posting opens a block
             ctx.count("c01.staged_cases")
         else:
             h = model.gen_group_history(rng) if grouped else model.gen_history(rng, ndocs=(1, 45), boosts=rng.random() < 0.3, boolean=True)
         wname, wobj = gen_weighting(rng)
+        if staged:
+            from whoosh import scoring
+            wname, wobj = rng.choice([("BM25F", scoring.BM25F()), ("TF_IDF", scoring.TF_IDF()), ("Frequency", scoring.Frequency())])
         wb = {"history": {"commits": [len(c) for c in h["commits"]], "deletes": h["deletes"][:12],
                           "blocklimit": h["blocklimit"], "storage": h["storage"]}, "case_idx": idx, "weighting": wname}
         ok, built = ctx.guard("c01.build", wb, model.build, h)
